@@ -191,6 +191,89 @@ fn gen(len: usize, alphabet: &[Op], cur: &mut Vec<Op>, out: &mut Vec<Vec<Op>>) {
     }
 }
 
+/// Bursts around the command channel's capacity: many operations issued back to back by tasks that
+/// never wait for the store task in between, from one and from several handles.
+fn bursts(rep: &mut Report) -> u64 {
+    let rt = Rt::new();
+    let path = format!("/dev/shm/hsv-c16-burst-{}", std::process::id());
+    let _ = std::fs::remove_dir_all(&path);
+    let store = rt.block_on(async { Store::new(&path) }).expect("rocksdb");
+    let mut ops = 0u64;
+    let mut exec = 0u64;
+    for handles in [1usize, 2, 4] {
+        for per_handle in [50usize, 99, 100, 101, 102, 150, 250] {
+            for waiters in [false, true] {
+                exec += 1;
+                let prefix = exec.to_be_bytes().to_vec();
+                let key = |h: usize, i: usize| -> Vec<u8> {
+                    let mut k = prefix.clone();
+                    k.push(h as u8);
+                    k.extend_from_slice(&(i as u32).to_be_bytes());
+                    k
+                };
+                network::simnet::enter(rt.ns);
+                // waiters parked on each handle's last key
+                let mut ws = Vec::new();
+                if waiters {
+                    for h in 0..handles {
+                        let mut s = store.clone();
+                        let k = key(h, per_handle - 1);
+                        ws.push(rt.rt.spawn(async move { s.notify_read(k).await }));
+                    }
+                    rt.quiesce();
+                }
+                let mut tasks = Vec::new();
+                for h in 0..handles {
+                    let mut s = store.clone();
+                    let keys: Vec<Vec<u8>> = (0..per_handle).map(|i| key(h, i)).collect();
+                    tasks.push(rt.rt.spawn(async move {
+                        for (i, k) in keys.into_iter().enumerate() {
+                            s.write(k, vec![h as u8, (i % 251) as u8]).await;
+                        }
+                    }));
+                }
+                for _ in 0..20 {
+                    rt.quiesce();
+                }
+                ops += (handles * per_handle) as u64;
+                let mut missing = Vec::new();
+                for h in 0..handles {
+                    for i in 0..per_handle {
+                        let mut s = store.clone();
+                        let k = key(h, i);
+                        let got = rt.block_on(async move { s.read(k).await });
+                        if got.ok().flatten() != Some(vec![h as u8, (i % 251) as u8]) {
+                            missing.push((h, i));
+                        }
+                    }
+                }
+                if !missing.is_empty() {
+                    rep.violation("store:burst-write-lost".into(), format!("[burst: {} handles x {} back-to-back writes] {} acknowledged writes are not visible to later reads, first: handle {} write #{}", handles, per_handle, missing.len(), missing[0].0, missing[0].1), json!({"engine":"seq-store","burst":{"handles":handles,"writes_per_handle":per_handle,"waiters":waiters}}));
+                }
+                for (h, wt) in ws.into_iter().enumerate() {
+                    if !wt.is_finished() {
+                        rep.violation("store:burst-waiter-missed".into(), format!("[burst: {} handles x {} writes] the notify_read parked on handle {}'s last key never completed", handles, per_handle, h), json!({"engine":"seq-store","burst":{"handles":handles,"writes_per_handle":per_handle,"waiters":waiters}}));
+                        wt.abort();
+                    }
+                }
+                for t in tasks {
+                    if !t.is_finished() {
+                        rep.violation("store:burst-stuck".into(), format!("[burst: {} handles x {} writes] a writer task never finished", handles, per_handle), json!({"engine":"seq-store"}));
+                        t.abort();
+                    }
+                }
+            }
+        }
+    }
+    drop(store);
+    rt.quiesce();
+    drop(rt);
+    let _ = std::fs::remove_dir_all(&path);
+    rep.set("burst_executions", json!(exec));
+    rep.set("burst_bounds", json!("1/2/4 handles x {50,99,100,101,102,150,250} back-to-back writes each (the command channel holds 100), with and without a notify_read parked on each handle's last key"));
+    ops
+}
+
 pub fn c16(tier: Tier) -> i32 {
     let mut rep = Report::new("C16", tier, "model_checking");
     let base = [Op::Write(0), Op::Write(1), Op::Read(0), Op::Read(1), Op::Notify(0), Op::Notify(1), Op::CancelOldest, Op::CancelNewest];
@@ -282,6 +365,8 @@ pub fn c16(tier: Tier) -> i32 {
             rep.violation(format!("store:{}", sig), format!("[sequence {}] {}", with_reopen[j].iter().map(name).collect::<Vec<_>>().join(", "), what), json!({"engine":"seq-store","sequence":with_reopen[j].iter().map(name).collect::<Vec<_>>()}));
         }
     }
+    let burst_ops = bursts(&mut rep);
+    steps += burst_ops;
     println!("  store: sequences={} (+{} with reopen), operations executed={}, distinct observation vectors (per worker, summed)={}", seqs.len(), n_reopen, steps, outcomes);
     rep.set("states", json!(seqs.len() + n_reopen));
     rep.set("transitions", json!(steps));
